@@ -2,11 +2,12 @@ import SamlVerif.Driver.Proto
 import SamlVerif.Driver.SPStruct
 import SamlVerif.Driver.Codec
 import SamlVerif.Driver.Xmlenc
+import SamlVerif.Driver.IdP
 
 open SamlVerif
 
 def allHandlers : List (String × Proto.P String) :=
-  Driver.SPStruct.handlers ++ Driver.Codec.handlers ++ Driver.XmlencD.handlers
+  Driver.SPStruct.handlers ++ Driver.Codec.handlers ++ Driver.XmlencD.handlers ++ Driver.IdPD.handlers
 
 def answer (line : String) : String :=
   match (line.splitOn " ").filter (· ≠ "") with
